@@ -258,9 +258,9 @@ class HeapMixin(object):
     r = z3.Int(fresh_name('new'))
     st.assume(r == st.alloc + 1)     # dense allocation: no unconstrained references in between
     st.alloc = r
-    if cls is not None:
-      a = self.arr(st, '$cls', [I, I])
-      st.heap['$cls'] = z3.Store(a, r, z3.IntVal(self.class_id(cls)))
+    # every new object gets a dynamic class tag (containers and closures: '$obj')
+    a = self.arr(st, '$cls', [I, I])
+    st.heap['$cls'] = z3.Store(a, r, z3.IntVal(self.class_id(cls if cls is not None else '$obj')))
     return r
 
   def dyn_class(self, st, ref):
